@@ -100,6 +100,8 @@ def edit_states(r, A, counter, hostile):
                 origin = origin[:keep] + [None] + origin[keep:]
                 ops.append(("insert-top", keep + 1, 1))
             nb = difflab.relocate(st, new_lines, origin)
+            if not st.final_newline and r.random() < 0.5:
+                nb.final_newline = True       # the edit also terminates the last line
             ops_desc[p] = ops
         else:
             nb = difflab.relocate(st, list(st.lines), list(range(len(st.lines))))
@@ -119,9 +121,18 @@ def block_verdict(bA, bB, groups):
     for g in groups:
         R, Aset = set(g.removed), set(g.added)
         inside = bool(Aset & inB) or (bA is not None and bool(R & inA))
+        touch = bool(Aset & tagB) or (bA is not None and bool(R & tagA))
+        if inside and touch:
+            # one change group that removes/adds content lines *and* rewrites a tag line of this block: unless the k-th removed line
+            # and the k-th added line are both the tag line or both not, which of the removed lines was the tag cannot be decided
+            # from the diff and the new file alone (same scoring as in C02)
+            rem, add = sorted(g.removed), sorted(g.added)
+            aligned = bA is not None and len(rem) == len(add) and all((x in tagA) == (y in tagB) for x, y in zip(rem, add))
+            if not aligned:
+                v, why = DC, "mixed-group"
+                continue
         if inside:
             return MUST, ("added" if Aset & inB else "removed") + ("+pure-deletion" if g.pure_deletion() else "")
-        touch = bool(Aset & tagB) or (bA is not None and bool(R & tagA))
         adj = ((bB.s1 - 1) in Aset) or ((bB.e2 + 1) in Aset) or (bA is not None and (((bA.s1 - 1) in R) or ((bA.e2 + 1) in R)))
         if touch or adj:
             v, why = DC, "touch" if touch else "adjoin"
